@@ -145,18 +145,22 @@ Model/TransportConn.lean: the life cycle of transport.go's connections as an LTS
 (Client / Writer over a real kafka.Transport against the fake broker, response cut at byte k, then follow-up calls). -/
 
 open KV.TransportConn in
-/-- for ALL event sequences the LTS accepts: after an exchange on c failed (T.Done c, not ok, not ErrNoRecord) no later
-event grabs c, receives a request on it, completes an exchange on it, releases it to the idle stack or removes it from
-there — c can only exit — and it is still dead at the end. -/
-theorem failed_conn_never_reused (s0 s3 : State) (pre post : List TransportConn.Ev) (c : Nat)
-    (h : run s0 (pre ++ [TransportConn.Ev.done c false false] ++ post) = some s3) :
+/-- the fact the LTS is parameterised by, as regenerated from transport.go `(*conn).run` now -/
+theorem transport_drops_failed : Gen.ConnLegacy.transportFacts.dropFailed = true := by decide
+
+open KV.TransportConn in
+/-- for ALL event sequences the LTS accepts (with the regenerated fact): after an exchange on c failed (T.Done c, not ok,
+not ErrNoRecord) no later event grabs c, receives a request on it, completes an exchange on it, releases it to the idle
+stack or removes it from there — c can only exit — and it is still dead at the end. -/
+theorem failed_conn_never_reused (f : TFacts) (hf : f.dropFailed = true) (s0 s3 : State) (pre post : List TransportConn.Ev) (c : Nat)
+    (h : run f s0 (pre ++ [TransportConn.Ev.done c false false] ++ post) = some s3) :
     (∀ e ∈ post, uses c e = false) ∧ dead s3 c := by
   rw [List.append_assoc, run_append] at h
-  cases h1 : run s0 pre with
+  cases h1 : run f s0 pre with
   | none => simp [h1] at h
   | some s1 =>
     simp only [h1, Option.bind_some, List.singleton_append, run] at h
-    cases h2 : step s1 (TransportConn.Ev.done c false false) with
+    cases h2 : step f s1 (TransportConn.Ev.done c false false) with
     | none => simp [h2] at h
     | some s2 =>
       simp only [h2] at h
@@ -164,34 +168,38 @@ theorem failed_conn_never_reused (s0 s3 : State) (pre post : List TransportConn.
         simp only [step, Bool.or_self, Bool.false_eq_true, ↓reduceIte] at h2
         obtain ⟨st, hg, _, rfl⟩ := move_spec h2
         exact Or.inl (get_set_same _ hg)
-      have := dead_run post hd h
+      have := dead_run hf post hd h
       exact ⟨this.2, this.1⟩
 
 open KV.TransportConn in
 /-- so the request after a cut runs on a different connection: whatever is grabbed or created later is not c, and a
 grabbed connection is one that sits on the idle stack (released after a completed exchange, or never used). -/
-theorem resume_after_cut (s0 s3 : State) (pre post : List TransportConn.Ev) (c : Nat)
-    (h : run s0 (pre ++ [TransportConn.Ev.done c false false] ++ post) = some s3) :
+theorem resume_after_cut (f : TFacts) (hf : f.dropFailed = true) (s0 s3 : State) (pre post : List TransportConn.Ev) (c : Nat)
+    (h : run f s0 (pre ++ [TransportConn.Ev.done c false false] ++ post) = some s3) :
     (∀ c', TransportConn.Ev.grab c' ∈ post → c' ≠ c) ∧ (∀ c' g, TransportConn.Ev.new c' g ∈ post → c' ≠ c) ∧ (∀ c', TransportConn.Ev.recv c' ∈ post → c' ≠ c) := by
-  have hu := (failed_conn_never_reused s0 s3 pre post c h).1
+  have hu := (failed_conn_never_reused f hf s0 s3 pre post c h).1
   refine ⟨fun c' hm hc => ?_, fun c' g hm hc => ?_, fun c' hm hc => ?_⟩ <;>
     · have := hu _ hm
       subst hc
       simp [uses] at this
 
 open KV.TransportConn in
-theorem grab_takes_idle (s s' : State) (c : Nat) (h : step s (TransportConn.Ev.grab c) = some s') : get s c = some St.idle := by
+theorem grab_takes_idle (f : TFacts) (s s' : State) (c : Nat) (h : step f s (TransportConn.Ev.grab c) = some s') : get s c = some St.idle := by
   obtain ⟨st, hg, hf, _⟩ := move_spec h
   cases st <;> first | exact hg | exact absurd hf (by decide)
 
 open KV.TransportConn in
-/-- the LTS accepts the normal life of a connection (non-vacuity), and refuses the seeded-mutant shape: releasing
-a connection to the idle stack after a failed exchange. -/
+/-- the LTS accepts the normal life of a connection (non-vacuity) and refuses the seeded-mutant shape — releasing a
+connection to the idle stack after a failed exchange — unless the regenerated fact says the code does exactly that,
+in which case the reuse the theorem excludes becomes an accepted behaviour: grab and serve on a dead connection. -/
 theorem transport_examples :
-    (run [] [.new 1 0, .recv 1, .done 1 true false, .release 1 true, .grab 1, .recv 1, .done 1 false false, .exit 1,
+    (run ⟨true⟩ [] [.new 1 0, .recv 1, .done 1 true false, .release 1 true, .grab 1, .recv 1, .done 1 false false, .exit 1,
              .new 2 0, .recv 2, .done 2 true false, .release 2 true, .closeIdle 0, .exit 2]).isSome = true ∧
-    run [] [.new 1 0, .recv 1, .done 1 false false, .release 1 true] = none ∧
-    run [] [.new 1 0, .recv 1, .done 1 false true, .release 1 true, .grab 1] ≠ none := by decide
+    run ⟨true⟩ [] [.new 1 0, .recv 1, .done 1 false false, .release 1 true] = none ∧
+    run ⟨true⟩ [] [.new 1 0, .recv 1, .done 1 false true, .release 1 true, .grab 1] ≠ none ∧
+    (run ⟨false⟩ [] [.new 1 0, .recv 1, .done 1 false false, .release 1 true, .exit 1, .grab 1]).isSome = false ∧
+    (run ⟨false⟩ [] [.new 1 0, .recv 1, .done 1 false false, .release 1 true, .grab 1, .exit 1]).isSome = false ∧
+    (run ⟨false⟩ [] [.new 1 0, .recv 1, .done 1 false false, .release 1 true, .grab 1]).isSome = true := by decide
 
 /-! ### inside the message set: no cut makes the fetch path panic (as far as the C02 decoder model reaches)
 
